@@ -67,6 +67,26 @@ func (p c03) Run(c *core.Ctx) {
 			c.Count("optional_entry_components", 1)
 		}
 	}
+	if c.Index%4 == 1 {
+		// an unrelated component fails in between: a lazy leaf whose Init fails (always / once) is looked up
+		// from inside some Init, the caller swallows the error. Nothing of what was handed out before
+		// may be forgotten because of it.
+		for x := 0; x < 1+c.Rng.Intn(2); x++ {
+			leaf := g.AddNode([]int{8, 7, 14}[c.Rng.Intn(3)], g.FreshName(len(sc.Nodes)))
+			if c.Rng.Intn(2) == 0 {
+				sc.Nodes[leaf].Fails = []string{"init"}
+			} else {
+				sc.Nodes[leaf].FailOnce = []string{"init"}
+			}
+			for y := 0; y < 1+c.Rng.Intn(3); y++ {
+				i := c.Rng.Intn(leaf)
+				if ti := world.Palette[sc.Nodes[i].Type]; ti.Init || ti.Aps {
+					sc.Nodes[i].Lookups = append(sc.Nodes[i].Lookups, sc.Nodes[leaf].DisplayName())
+				}
+			}
+			c.Count("failing_leaves_looked_up", 1)
+		}
+	}
 	n := len(sc.Nodes)
 	selfReq := map[int]bool{}
 	for i := 0; i < n; i++ {
